@@ -1,3 +1,8 @@
+/-
+Root module: the executable parts (models, specs, oracle components). Proof and property modules are separate
+compilation units (several helper files reuse lemma names, so no single module imports all of them); the library's
+`globs` in lakefile.toml make `lake build` compile and check every module under Updog/.
+-/
 import Updog.Basic.Bytes
 import Updog.Basic.XXHash
 import Updog.Generated
